@@ -156,32 +156,34 @@ func c02Check(c *vlib.Case, run *vlib.Run, env *pmmvEnv, cfg *pmmvConfig, r *vli
 		run.Count("init_error_"+pmmvErrName(ierr), 1)
 	default:
 		// success, or the early allocator ran dry while Init was mapping its pages
-		for i, mc := range env.maps {
-			if i >= len(seq) || seq[i].oom || seq[i].frame != mc.Frame {
-				c.Violationf("handover-early-frames-differ", "early frame #%d seen at the map seam during Init is %#x, the directly driven allocator's frame #%d is %v", i, mc.Frame, i, c02SeqAt(seq, i))
+		earlySeq := env.earlySeq()
+		for i, fr := range earlySeq {
+			if i >= len(seq) || seq[i].oom || seq[i].frame != fr {
+				c.Violationf("handover-early-frames-differ", "early frame #%d seen at the map seam during Init (as a mapped frame or handed to the seam by mm.AllocFrame) is %#x, the directly driven allocator's frame #%d is %v", i, fr, i, c02SeqAt(seq, i))
 				return false, nil
 			}
 		}
-		run.Count("handover_frames_cross_checked", int64(len(env.maps)))
+		run.Count("handover_frames_cross_checked", int64(len(earlySeq)))
+		run.Count("handover_frames_taken_by_the_map_seam_for_page_tables", int64(len(env.pt)))
 		if len(env.maps) >= 2 {
 			run.Count("handovers_with_2_or_more_early_frames", 1)
 		}
 		if ierr != nil {
 			run.Count("init_error_"+pmmvErrName(ierr), 1)
-			if len(env.maps)+1 <= nFrames {
-				c.Violationf("handover-early-oom", "Init failed with the early allocator's out-of-memory after %d early frames, the directly driven allocator returned %d", len(env.maps), nFrames)
+			if len(earlySeq)+1 <= nFrames {
+				c.Violationf("handover-early-oom", "Init failed with the early allocator's out-of-memory after %d early frames, the directly driven allocator returned %d", len(earlySeq), nFrames)
 				return false, nil
 			}
 			break
 		}
 		run.Count("init_ok", 1)
-		if bootMemAllocator.allocCount != uint64(len(env.maps)) {
+		if bootMemAllocator.allocCount != uint64(len(earlySeq)) {
 			// the early allocator's state after hand-over is not part of the statement: counted only
 			run.Count("alloc_count_after_handover_differs_from_frames_consumed", 1)
 		}
 		early := map[uint64]bool{}
-		for _, mc := range env.maps {
-			early[mc.Frame] = true
+		for _, fr := range earlySeq {
+			early[fr] = true
 		}
 		// recovered at hand-over: none of them can be obtained from the main allocator
 		for n := uint64(0); n < m.RAM+2; n++ {
